@@ -577,6 +577,11 @@ func IsProbablyVisible(node *html.Node) bool {
 	switch dom.TagName(node) {
 	case "script", "style":
 		return false
+
+	case "template", "noembed", "noframes":
+		// The content of these elements is never rendered either: a template
+		// is inert, and browsers do support embed and frames.
+		return false
 	}
 
 	displayStyle := GetDisplayStyle(node)
